@@ -28,10 +28,11 @@ ALPHABET = {
     "=arg0": ("i32", "plain", 0, "arg0"),
     "=arg1": ("i32", "plain", 0, "arg1"),
     "=_arg1": ("i32", "plain", 0, "_arg1"),
+    "r#=arg0": ("i32", "raw", 0, "arg0"),
     "N(=fn)": ("N", "destr", 0, FN),
     "r#=fn": ("i32", "raw", 0, FN),
 }
-SPECIAL_ONCE = {"=fn", "=fn_", "=fn__", "=arg0", "=arg1", "=_arg1", "N(=fn)", "r#=fn"}
+SPECIAL_ONCE = {"r#=arg0", "=fn", "=fn_", "=fn__", "=arg0", "=arg1", "=_arg1", "N(=fn)", "r#=fn"}
 
 
 def valid(lst):
@@ -114,6 +115,10 @@ def check_names(c, rep, pinned=None):
     lst = c.meta["list"]
     recs = [r for r in c.records if r["status"] == "end" and tok.item_kind(r["input"])["kind"] in ("fn", "mod")]
     if not recs:
+        bad = [r for r in c.records if r["status"] != "end"]
+        if bad:
+            rep.violation(c.id, "expansion-" + bad[0]["status"], "expansion did not return for list %s: %s" % (lst, bad[0].get("panic")), pinned=pinned)
+            return
         raise core.Inconclusive("no expansion record for %s" % c.id)
     ps = trait_method_params(recs[0], "r#" + f["name"] if False else f["name"])
     if ps is None:
@@ -128,10 +133,10 @@ def check_names(c, rep, pinned=None):
             rep.violation(c.id, "non-ident-param", "generated parameter is not a plain identifier: `%s` (list %s)" % (tok.render(p), lst), pinned=pinned)
             return
         names.append(p[0]["i"])
-    if len(set(names)) != len(names):
+    if len({n[2:] if n.startswith("r#") else n for n in names}) != len(names):
         rep.violation(c.id, "duplicate-names", "generated parameter names are not distinct: %s (list %s)" % (names, lst), pinned=pinned)
         return
-    if f["name"] in names:
+    if f["name"] in [n[2:] if n.startswith("r#") else n for n in names]:
         rep.violation(c.id, "shadows-fn", "a generated parameter shadows the function `%s`: %s (list %s)" % (f["name"], names, lst), pinned=pinned)
         return
     for want, got, sym in zip(c.meta["expected"], names, lst):
